@@ -675,6 +675,9 @@ structure WEnv where
   p : ∀ s, (f s).p = s.p
   len : ∀ s, (f s).conns.length = s.conns.length
   conn : ∀ s j, (f s).conn j = { s.conn j with sock := ((f s).conn j).sock }
+  groups : ∀ s, (f s).groups = s.groups
+  log : ∀ s, (f s).log = s.log
+  oc : ∀ s, (f s).openConnections = s.openConnections
 
 inductive WOp where
   | tick
@@ -729,5 +732,36 @@ theorem run_winv (p : Params) (gs : List (String × List (Bool × List Nat))) (h
   | nil => exact ⟨h0, hp⟩
   | cons op ops ih =>
     exact ih _ (winv_apply s op (hp ▸ hk0) (hp ▸ hk) h0) ((apply_p s op).trans hp)
+
+/-! ### environment events used by the concrete histories of the property files -/
+
+def lenvPending (sk : Sock) : WEnv where
+  f s := { s with pending := s.pending ++ [sk] }
+  p _ := rfl
+  len _ := rfl
+  conn _ _ := rfl
+  groups _ := rfl
+  log _ := rfl
+  oc _ := rfl
+
+def lenvFeed (i : Nat) (bytes : List Nat) : WEnv where
+  f s := s.setConn i { s.conn i with sock := { (s.conn i).sock with chunks := (s.conn i).sock.chunks ++ [bytes] } }
+  p _ := rfl
+  len s := setConn_len _ _ _
+  conn s j := by
+    by_cases hj : j = i
+    · subst hj
+      by_cases hl : j < s.conns.length
+      · rw [conn_setConn _ _ _ hl]
+      · have hs : ∀ c, s.conns.set j c = s.conns := fun c => List.set_eq_of_length_le (Nat.le_of_not_lt hl)
+        have : ∀ c, (s.setConn j c).conn j = s.conn j := by intro c; unfold Slave.conn Slave.setConn; simp only [hs]
+        rw [this]
+    · rw [conn_setConn_ne _ _ _ _ hj]
+  groups _ := rfl
+  log _ := rfl
+  oc _ := rfl
+
+def lifeDemoParams : Params := { k := 2, w := 1, t0 := 10, t1 := 15, t2 := 10, t3 := 20, mode := 0, maxOpen := 0, lowQ := 4, highQ := 4, asduHdr := 6, replies := 0, nSlots := 2 }
+
 
 end Iec.Srv104
